@@ -51,6 +51,11 @@ def compare_rows(vec: Dict[str, Any], obs: Dict[str, Any]) -> Outcome:
     mism = []
     if obs["kind"].startswith("Leak"):
         mism.append("%s %s: %s (%s)" % (vec["backend"], vec["mode"], obs["kind"], obs.get("msg", "")[:80]))
+        if "DropEvalsMultiIndexLabels" in (vec.get("devs") or []) and obs["kind"] == vec["asis"]:
+            oc.known = ["DropEvalsMultiIndexLabels"]
+            oc.mismatches = []
+            oc.sig = "rows|leak|%s" % sorted(vec["schema"].items())
+            return oc
     elif obs["kind"] != exp["kind"]:
         mism.append("%s %s head=%s tail=%s: specification predicts %s, pandera %s %s"
                     % (vec["backend"], vec["mode"], vec["head"], vec["tail"], exp["kind"], obs["kind"], obs.get("reasons", "")))
